@@ -40,18 +40,26 @@ def events_for(darsia, rng, shape, h, tid, integer_h):
     vol = float(np.prod(h))
     base = {"tid": tid, "G": G, "h": hspec}
     ev = []
-    # divergence matrix
-    D = darsia.FVDivergence(grid).mat.tocoo()
-    ents = []
-    for r_, c_, v_ in zip(D.row, D.col, D.data):
-        if v_ == 0:
-            continue
-        val = v_ if integer_h else v_ / area[axis_of.get(int(c_), 0)]
-        ents.append([int(r_), int(c_), qi(val)])
-    ev.append(dict(base, op="div", nrows=int(D.shape[0]), ncols=int(D.shape[1]), entries=sorted(ents)))
-    # mass matrices
-    for mode in ("cells", "faces"):
-        M = darsia.FVMass(grid, mode).mat.tocoo()
+    # divergence and mass matrices.  Each operator is built TWICE on the same grid object (solvers, tests and users share
+    # grids): both builds, and the first one re-read after the second exists, have to be the operator of the specification
+    def div_entries(op):
+        D = op.mat.tocoo()
+        ents = []
+        for r_, c_, v_ in zip(D.row, D.col, D.data):
+            if v_ == 0:
+                continue
+            val = v_ if integer_h else v_ / area[axis_of.get(int(c_), 0)]
+            ents.append([int(r_), int(c_), qi(val)])
+        return dict(base, op="div", nrows=int(D.shape[0]), ncols=int(D.shape[1]), entries=sorted(ents))
+
+    d1 = darsia.FVDivergence(grid)
+    ev.append(div_entries(d1))
+    d2 = darsia.FVDivergence(grid)
+    ev.append(div_entries(d2))
+    ev.append(div_entries(d1))
+
+    def mass_entries(op, mode):
+        M = op.mat.tocoo()
         diag = np.zeros(M.shape[0])
         off = 0
         for r_, c_, v_ in zip(M.row, M.col, M.data):
@@ -59,8 +67,14 @@ def events_for(darsia, rng, shape, h, tid, integer_h):
                 diag[r_] += v_
             elif v_ != 0:
                 off += 1
-        ev.append(dict(base, op="mass", mode=mode, offdiag=off,
-                       diag=[qi(x if integer_h else x / vol) for x in diag]))
+        return dict(base, op="mass", mode=mode, offdiag=off, diag=[qi(x if integer_h else x / vol) for x in diag])
+
+    for mode in ("cells", "faces"):
+        m1 = darsia.FVMass(grid, mode)
+        ev.append(mass_entries(m1, mode))
+        m2 = darsia.FVMass(grid, mode)
+        ev.append(mass_entries(m2, mode))
+        ev.append(mass_entries(m1, mode))
     if nf == 0:
         return ev
     # face -> cell reconstruction at rational reference points
